@@ -676,7 +676,14 @@ def check_shape(rec: Recorder, desc, tier: str, seed: int, is_base: bool = False
             try:
                 folded = apply_map(e, rule, method)
                 lhs = folded.doit()
-                rhs = apply_map(ed, rule, method)
+                try:
+                    rhs = apply_map(ed, rule, method)
+                except RecursionError:
+                    # SymPy itself recurses without end when the map makes the UNFOLDED
+                    # expression degenerate (m2 -> m1 inside nested Piecewise conditions);
+                    # the folded route went through: nothing to compare with
+                    rec.out("law1:sympy-recursion-on-the-unfolded-side(not judged)")
+                    continue
             except Exception as exc:  # noqa: BLE001
                 if label.endswith("->zero") and (isinstance(exc, ZeroDivisionError) or "NaN" in str(exc)):
                     rec.out("law1:zero-is-a-singular-point(not judged)")
